@@ -315,6 +315,7 @@ def run(chk, repo, tier):
         raise AnalysisError('H6: no DataFrame field serialisation found (Model.initial_individual_estimates moved?)')
 
     run_h7(chk, repo, in_scope)
+    run_h8_h10(chk, repo)
 
     # ---------------------------------------------------------------- H5
     mh = repo.cls('pharmpy.workflows.hashing.ModelHash').methods.get('__init__')
@@ -418,3 +419,129 @@ def run_h7(chk, repo, in_scope):
                                   witness=f'two objects that differ only in {key}: same dictionary, same hash, from_dict(to_dict(x)) != x')
     if n < 40:
         raise AnalysisError(f'H7: only {n} key/field pairs found')
+
+
+def run_h8_h10(chk, repo):
+    """H8: numeric fields that reach the serialised text are normalised to float in the validating constructor; H9: the two
+    directions of Model.to_dict / from_dict use inverse codecs per mapping; H10: the dataset hash goes through a content hash
+    of the values, never through raw array buffers"""
+    from sa import reach
+    H8 = chk.rule('H8', 'Parameter.create: init, lower and upper are converted with float() (or set to +-inf) on every path to '
+                        'the constructor (0 and 0.0 must serialise the same)', floor=3)
+    pc = repo.cls('pharmpy.model.parameters.Parameter')
+    cr = pc.methods.get('create')
+    if cr is None:
+        raise AnalysisError('Parameter.create not found')
+    cfg = CFG(cr.node)
+    ctor = [n for n in cfg.nodes.values() if n.kind == 'return' and isinstance(n.ast.value, ast.Call)
+            and unparse(n.ast.value.func) in ('cls', 'Parameter')]
+    if not ctor:
+        raise AnalysisError('H8: constructor call of Parameter.create not found')
+
+    def is_float(e):
+        if isinstance(e, ast.Call) and dotted(e.func) == 'float':
+            return True
+        if isinstance(e, ast.UnaryOp) and isinstance(e.op, ast.USub):
+            return is_float(e.operand)
+        if isinstance(e, ast.IfExp):
+            return is_float(e.body) and is_float(e.orelse)
+        if isinstance(e, ast.Constant) and isinstance(e.value, float):
+            return True
+        return False
+    for r in ctor:
+        for fld in ('init', 'lower', 'upper'):
+            args = r.ast.value.args
+            names_ = [p for p in cr.params if p != 'cls']
+            arg = args[names_.index(fld)] if fld in names_ and names_.index(fld) < len(args) else next(
+                (k.value for k in r.ast.value.keywords if k.arg == fld), None)
+            if arg is None:
+                raise AnalysisError(f'H8: argument {fld} of the constructor call not found')
+            if is_float(arg):
+                ok = True
+            elif isinstance(arg, ast.Name):
+                found, entry = reach.reaching(cfg, r.id, arg.id)
+                vs = reach.values(cfg, r.id, arg.id)
+                ok = bool(vs) and not entry and all(is_float(v) for _d, v in vs)
+            else:
+                ok = False
+            chk.instance(H8, f'Parameter.create: `{fld}` reaches the constructor as a float on every path: {ok}')
+            if not ok:
+                chk.violation(H8, pc.module.rel, cr.qualname, f'{fld} passed as given on some path',
+                              f'`{fld}` keeps the type the caller used: 0 and 0.0 compare equal but serialise as "0" and "0.0", '
+                              f'so two equal models get different hash keys', line=r.line,
+                              witness='Parameter.create("X", 1, lower=0) vs lower=0.0: equal parameters, different ModelHash')
+    # ------------------------------------------------------------------ H9
+    H9 = chk.rule('H9', 'Model.to_dict / from_dict: keys and values of each mapping are written and read with inverse codecs '
+                        '(x.serialize() <-> Expr.deserialize(x), str(x) <-> Expr.symbol(x))', floor=2)
+    mc = repo.cls('pharmpy.model.model.Model')
+    td, fd = mc.methods.get('to_dict'), mc.methods.get('from_dict')
+    if td is None or fd is None:
+        raise AnalysisError('Model.to_dict / from_dict not found')
+
+    def codec(e, var):
+        t = unparse(e)
+        if t == var:
+            return 'identity'
+        if t == f'{var}.serialize()':
+            return 'serialize'
+        if t == f'str({var})':
+            return 'str'
+        if t == f'Expr.deserialize({var})':
+            return 'deserialize'
+        if t == f'Expr.symbol({var})':
+            return 'symbol'
+        return f'other:{t[:30]}'
+    INVERSE = {'serialize': 'deserialize', 'str': 'symbol', 'identity': 'identity'}
+    # writer: local = {kf(k): vf(v) for k, v in self._field.items()} ; 'name': local in the returned dict
+    wr = {}
+    locs = {a.targets[0].id: a.value for a in walk_no_nested(td.node) if isinstance(a, ast.Assign)
+            and isinstance(a.targets[0], ast.Name) and isinstance(a.value, ast.DictComp)}
+    for d_ in [x for x in ast.walk(td.node) if isinstance(x, ast.Dict)]:
+        for k, v in zip(d_.keys, d_.values):
+            if isinstance(k, ast.Constant) and isinstance(v, ast.Name) and v.id in locs:
+                dc = locs[v.id]
+                tg = dc.generators[0].target
+                if isinstance(tg, ast.Tuple) and len(tg.elts) == 2:
+                    wr[k.value] = (codec(dc.key, unparse(tg.elts[0])), codec(dc.value, unparse(tg.elts[1])))
+    rd = {}
+    for dc in [x for x in ast.walk(fd.node) if isinstance(x, ast.DictComp)]:
+        it = dc.generators[0].iter
+        key = next((s_.slice.value for s_ in ast.walk(it) if isinstance(s_, ast.Subscript) and isinstance(s_.slice, ast.Constant)), None)
+        tg = dc.generators[0].target
+        if key is not None and isinstance(tg, ast.Tuple) and len(tg.elts) == 2:
+            rd[key] = (codec(dc.key, unparse(tg.elts[0])), codec(dc.value, unparse(tg.elts[1])))
+    common = sorted(set(wr) & set(rd))
+    if len(common) < 2:
+        raise AnalysisError(f'H9: mapping comprehensions of Model.to_dict / from_dict not paired ({sorted(wr)}, {sorted(rd)})')
+    for name in common:
+        (wk, wv), (rk, rv_) = wr[name], rd[name]
+        ok = INVERSE.get(wk) == rk and INVERSE.get(wv) == rv_
+        chk.instance(H9, f'{name}: written ({wk}, {wv}), read ({rk}, {rv_}): inverse {ok}')
+        if not ok:
+            chk.violation(H9, mc.module.rel, 'Model.to_dict / from_dict', f'{name}: written ({wk}, {wv}), read ({rk}, {rv_})',
+                          'the reader does not apply the inverse of what the writer applied: a key written with str() is parsed '
+                          'as an expression (E, I, pi, S, beta ... become constants or fail)', line=td.node.lineno,
+                          witness='a dependent variable named E: from_dict(to_dict(m)) != m')
+    # ------------------------------------------------------------------ H10
+    H10 = chk.rule('H10', 'the dataset hash is fed with a content hash of the values (pandas hash_pandas_object), not with raw '
+                          'array buffers', floor=1)
+    hm = repo.module('pharmpy.workflows.hashing')
+    scope_fns = [f_ for f_ in dict.values(hm.functions)]
+    # a moved helper is followed through the import
+    for nm, imp in hm.imports.items():
+        r_ = repo.resolve(hm, nm) if isinstance(imp, tuple) and imp[0] == 'attr' and str(imp[1]).startswith('pharmpy.internals') else None
+        if r_ and r_[0] == 'func':
+            scope_fns.append(r_[1])
+    raw = [(f_, c) for f_ in scope_fns for c in calls_in(f_.node) if isinstance(c.func, ast.Attribute)
+           and c.func.attr in ('tobytes', 'tostring') and any(
+               isinstance(u, ast.Call) and isinstance(u.func, ast.Attribute) and u.func.attr == 'update'
+               and any(x is c for x in ast.walk(u)) for u in ast.walk(f_.node))]
+    content = [c for f_ in scope_fns for c in calls_in(f_.node) if (dotted(c.func) or '').endswith('hash_pandas_object')]
+    chk.instance(H10, f'hashing: {len(content)} hash_pandas_object call(s), {len(raw)} raw buffer(s) fed to the hash')
+    for f_, c in raw:
+        chk.violation(H10, f_.module.rel, f_.qualname, unparse(c)[:80],
+                      'the bytes of an array buffer are hashed: for a text column (object dtype) these are memory addresses',
+                      line=c.lineno,
+                      witness='a dataset with a DATE or hh:mm TIME column: the key differs between two processes')
+    if not content and not raw:
+        raise AnalysisError('H10: how the dataset values reach the hash was not recognised')
